@@ -9,6 +9,36 @@ CHECKS = {
              text="Generated region collections (rapid, boundary-biased) plus complete enumeration of all <=3-segment collections over n<=4/5 are compared with an independent coverage bitmap: Minimize is checked for orientation, strict order, non-abutment and exact cover in both directions, InvertLinear for exact partition, InvertCircular for equal cover and origin merge, and all for permutation/orientation invariance. Exploration is the right level: the functions are pure and cheap, so millions of cases and an exhaustive small space are affordable, but the space is unbounded.",
              note="Trusted: the harness's bitmap oracle, rapid, the Go toolchain. A zero-length input segment exactly at 0 or n leaves the circular-merge clause unasserted (statement silent).",
              design="§3 C09"),
+ "C02": dict(technique="property-based testing (rapid, boundary-biased generators) + exhaustive small-space enumeration against a reference position-map model",
+             level="exploration",
+             text="Every generated (host, guest, index, table) is run through Insert and Embed and compared with an independent model: byte splice, per-label presence/key/qualifiers, denotation (ordered stranded residue list) equal to the position-mapped original, outer partial markers mapped, guest features shifted, all coordinates in bounds. All single-leaf and two-part locations over small L are enumerated completely.",
+             note="Trusted: the harness model (own AST/denotation, no gts coordinate code), rapid, Go. Sites inside residue-bearing features and junction markers are not compared.",
+             design="§3 C02"),
+ "C04": dict(technique="property-based testing (rapid) + exhaustive small-space enumeration; model oracle plus metamorphic laws (additive, identity, inverse)",
+             level="exploration",
+             text="Rotate is compared with the modular position map on bytes, denotations, markers and site positions, and the composition laws are checked gts-against-gts and against the model's identity rotation, for generated tables and exhaustively for all one/two-part locations over small L and all n in [-2L,2L].",
+             note="Trusted: harness model, rapid, Go. Whole-circle parts compared as full-length; origin-junction markers treated as interior.",
+             design="§3 C04"),
+ "C05": dict(technique="property-based testing (rapid) + exhaustive arity sweep; mirror model, involution laws, extraction differential across reverse-complement",
+             level="exploration",
+             text="Reverse/Complement are compared with a mirror model (positions, part order, marker sides, sites), involutions are checked on bytes and denotations, and for every feature the bytes gts extracts from the original and from the reverse-complemented record are compared with each other and with the model's extraction. Every join/order arity 1..6 is swept completely.",
+             note="Trusted: harness model and IUPAC table, rapid, Go. Open known findings: Between.Reverse off by one (pinned by the suite), join(range,point-at-end) drops the point (pinned).",
+             design="§3 C05"),
+ "C03": dict(technique="property-based testing (rapid) + exhaustive small-space enumeration against a reference position-map model with an explicit cut-end rule",
+             level="exploration",
+             text="Delete, Erase and Slice (forward, wrap-around, negative indices) are compared with the model on bytes, survival of every feature, denotation of the survivors, bounds, the cut-end rule (lost / invented / missing partial markers), the emptied-feature rule, topology and REFERENCE clipping (per reference: the set of residues covered), on generated cases and exhaustively for all one/two-part locations over small L.",
+             note="Trusted: harness model, rapid, Go. Open known findings: wrap-around reference clipping, cut site absorbed by the reducer, join(range,point) reduction.",
+             design="§3 C03"),
+ "C06": dict(technique="property-based testing (rapid: value, grammar-with-noise string and part-list generators) + exhaustive small enumeration + native go fuzzing (thorough); round-trip and denotation oracles",
+             level="exploration",
+             text="print->parse->print fixed points for constructor-built values and for every accepted string, equality of denotation and outer markers across the text form, and soundness of Join/Order reduction against the concatenated denotation of the parts.",
+             note="Trusted: harness denotation model, rapid, Go. Open known finding: join(range, point at its end) drops the point (pinned by the suite).",
+             design="§3 C06"),
+ "C10": dict(technique="property-based testing (rapid) + exhaustive small-space enumeration; inverse-law (round-trip) oracle on two-step programs",
+             level="exploration",
+             text="insert;delete and embed;delete must restore bytes, denotations and outer markers of every host feature (and the restored location must survive its own text form); slice*;concat must restore bytes and, per feature, the set of residues with strands. Intermediate values are deep-copied so aliasing defects cannot interfere.",
+             note="Trusted: harness model, rapid, Go.",
+             design="§3 C10"),
 }
 PENDING_REASON = "check not built yet in this session (see DESIGN.md §3a build order); property-based testing applies and a check is planned"
 def main():
